@@ -2,7 +2,7 @@
    Model-level characterisations; spec_C13 states all operations (child_nodes, modifier filter,
    unions, category counts, aggregated IC) against the observation and is evaluated on the crate. *)
 From Coq Require Import Sorted.
-From HpoV Require Import Model.Base Model.Group Model.Onto Model.HSet Proofs.C13P.
+From HpoV Require Import Model.Base Model.Group Model.Onto Model.Query Model.HSet Proofs.C13P.
 
 Theorem C13_without_obsolete : forall o s r, hs_without_obsolete o s = Ok r ->
   StronglySorted N.lt r /\
@@ -21,6 +21,22 @@ Theorem C13_in_place_equals_copying : forall o s,
   hs_remove_modifier o s = hs_without_modifier o s.
 Proof. exact in_place_same. Qed.
 
+(* child_nodes keeps exactly the members that are not an ancestor of any member *)
+Theorem C13_child_nodes : forall o s r,
+  (forall m t, In m s -> o_get m o = Some t -> StronglySorted N.lt (t_allp t)) ->
+  hs_child_nodes o s = Ok r ->
+  StronglySorted N.lt r /\
+  forall x, In x r <-> In x s /\ ~ exists m t, In m s /\ o_get m o = Some t /\ In x (t_allp t).
+Proof. exact child_nodes_spec. Qed.
+
+(* without_modifier / remove_modifier keep exactly the members that are not modifier terms *)
+Theorem C13_without_modifier : forall o s r, hs_without_modifier o s = Ok r ->
+  StronglySorted N.lt r /\
+  forall x, In x r <-> In x s /\ exists t, o_get x o = Some t /\ is_modifier o t = false.
+Proof. exact without_modifier_spec. Qed.
+
 Print Assumptions C13_without_obsolete.
 Print Assumptions C13_with_replaced_obsolete.
 Print Assumptions C13_in_place_equals_copying.
+Print Assumptions C13_child_nodes.
+Print Assumptions C13_without_modifier.
